@@ -59,22 +59,60 @@ type c10Replica struct {
 	gt  c10GT
 }
 
-type c10State struct{ rep [c10R]*c10Replica }
+type c10State struct {
+	rep    [c10R]*c10Replica
+	spread bool // LWW extension: generated values never tie across sources (see c10Next)
+}
 
 type c10Event struct {
 	Kind byte // 'e' edit, 'p' pull
 	R    int  // replica acting
 	From int  // pull source
+	LWW  bool // extension: values are spread so that no two sources tie, and a conflict is resolved by the default
+	// last-write-wins resolver (local or remote wins, no new version) instead of a merge
 }
 
 func (e c10Event) String() string {
 	if e.Kind == 'e' {
 		return "edit(" + c10Names[e.R] + ")"
 	}
+	if e.LWW {
+		return "pull-lww(" + c10Names[e.R] + "<-" + c10Names[e.From] + ")"
+	}
 	return "pull(" + c10Names[e.R] + "<-" + c10Names[e.From] + ")"
 }
 
+// c10Next is the version a replica generates above floor. Dense: floor+1 (the slowest admissible clock).
+// Spread (LWW extension): the next value whose remainder mod 4 names the replica, so values of different
+// sources never tie (a tie lets both sides of a last-write-wins resolution keep their own revision).
+func c10Next(floor uint64, self int, spread bool, seen ...*HybridLogicalVector) uint64 {
+	v := floor + 1
+	if spread {
+		// a hybrid logical clock follows real time: a version generated after others were seen is later than them
+		for _, h := range seen {
+			if h == nil {
+				continue
+			}
+			v = max(v, h.Version+1)
+			for _, x := range h.MergeVersions {
+				v = max(v, x+1)
+			}
+			for _, x := range h.PreviousVersions {
+				v = max(v, x+1)
+			}
+		}
+		for v%4 != uint64(self+1) {
+			v++
+		}
+	}
+	return v
+}
+
 type c10Problem struct{ oracle, sig, msg string }
+
+// c10Realigned is the oracle name suffix of a disagreement after which the ground truth was re-aligned with the
+// vector, so that exploration continues below it.
+const c10Realigned = " (ground truth re-aligned)"
 
 func c10Fmt(h *HybridLogicalVector) string {
 	if h == nil {
@@ -184,9 +222,17 @@ func c10CheckState(rep *c10Replica, self int, ev c10Event, outcome string, befor
 		}
 		return "other"
 	}
+	ext := ""
+	if strings.HasPrefix(outcome, "lww-") {
+		ext = "ext=lww|"
+	}
+	// signature: kind of disagreement, event, outcome and where the source is listed afterwards; the message
+	// carries the rest (role of the source, where it was listed in the inputs)
 	ctxSig := func(s int) string {
-		return fmt.Sprintf("event=%s|outcome=%s|source=%s|local-before=%s|incoming=%s|after=%s", evk, outcome, role(s),
-			c10Loc(before, c10Sources[s]), c10Loc(incoming, c10Sources[s]), c10Loc(h, c10Sources[s]))
+		return fmt.Sprintf("%sevent=%s|outcome=%s|listed-after=%s", ext, evk, outcome, c10Loc(h, c10Sources[s]))
+	}
+	ctxMsg := func(s int) string {
+		return fmt.Sprintf(" [source is %s; listed before: local %s, incoming %s]", role(s), c10Loc(before, c10Sources[s]), c10Loc(incoming, c10Sources[s]))
 	}
 	// current version
 	if h.SourceID != c10Sources[g.CV.S] || h.Version != g.CV.V {
@@ -209,11 +255,11 @@ func c10CheckState(rep *c10Replica, self int, ev c10Event, outcome string, befor
 		}
 		if kind != "" {
 			out = append(out, c10Problem{"seen-versions", "C10|histories|" + kind + "|" + ctxSig(s),
-				fmt.Sprintf("source %s: vector says %d (present=%v), the replica has seen %d", c10Names[s], got, found, want)})
+				fmt.Sprintf("source %s: vector says %d (present=%v), the replica has seen %d", c10Names[s], got, found, want) + ctxMsg(s)})
 		}
 		if mx := h.maxValueForSource(c10Sources[s]); mx != want && kind == "" {
 			out = append(out, c10Problem{"version-floor", "C10|histories|maxValueForSource-differs-from-seen|" + ctxSig(s),
-				fmt.Sprintf("source %s: maxValueForSource=%d, the replica has seen %d", c10Names[s], mx, want)})
+				fmt.Sprintf("source %s: maxValueForSource=%d, the replica has seen %d", c10Names[s], mx, want) + ctxMsg(s)})
 		}
 		// structure: a source is listed once; the documented exception is cv + an older merge version
 		_, inMV := h.MergeVersions[c10Sources[s]]
@@ -333,7 +379,7 @@ func c10Apply(ctx context.Context, st *c10State, ev c10Event) (*c10State, string
 			g = loc.gt
 			floor = h.maxValueForSource(c10Sources[self]) // documentUpdateFunc: the only durable floor of the clock
 		}
-		v := floor + 1 // slowest admissible clock: Now(floor) > floor is all it guarantees across restarts
+		v := c10Next(floor, self, st.spread, h) // slowest admissible clock: Now(floor) > floor is all it guarantees across restarts
 		if v <= g.VV[self] {
 			probs = append(probs, c10Problem{"monotone-generation", "C10|histories|generated-version-not-above-own-earlier-version|event=edit|own-source=" + c10Loc(before, c10Sources[self]),
 				fmt.Sprintf("floor from the vector is %d, but replica %s already generated %d", floor, c10Names[self], g.VV[self])})
@@ -363,6 +409,9 @@ func c10Apply(ctx context.Context, st *c10State, ev c10Event) (*c10State, string
 			return nil, "pull", probs
 		}
 		incoming = rem.hlv
+		if loc == nil && ev.LWW {
+			return nil, "", nil
+		}
 		if loc == nil {
 			outcome = "create-by-pull"
 			h := NewHybridLogicalVector() // PutExistingCurrentVersion: no local vector
@@ -396,6 +445,9 @@ func c10Apply(ctx context.Context, st *c10State, ev c10Event) (*c10State, string
 			probs = append(probs, c10Problem{"classification", "C10|histories|classification-modified-its-arguments", fmt.Sprintf("local %s -> %s, incoming %s -> %s", c10Fmt(loc.hlv), c10Fmt(local), c10Fmt(rem.hlv), c10Fmt(inc))})
 			return nil, "pull", probs
 		}
+		if ev.LWW && status != HLVConflict {
+			return nil, "", nil // identical to the plain pull: not a separate event
+		}
 		switch status {
 		case HLVNoConflictRevAlreadyPresent:
 			outcome = "known"
@@ -410,10 +462,28 @@ func c10Apply(ctx context.Context, st *c10State, ev c10Event) (*c10State, string
 			g.VV = c10MaxVV(loc.gt.VV, rem.gt.VV)
 			nr = &c10Replica{hlv: local, gt: g}
 		case HLVConflict:
+			if ev.LWW {
+				// DefaultLWWConflictResolutionType + resolveRemoteWinsHLV / resolveLocalWinsHLV
+				g := loc.gt
+				var nh *HybridLogicalVector
+				if inc.Version > local.Version {
+					outcome = "lww-remote-wins"
+					nh = local.Copy()
+					nh.UpdateWithIncomingHLV(inc)
+					g = rem.gt
+				} else {
+					outcome = "lww-local-wins"
+					nh = inc.Copy()
+					nh.UpdateWithIncomingHLV(local)
+				}
+				g.VV = c10MaxVV(loc.gt.VV, rem.gt.VV)
+				nr = &c10Replica{hlv: nh, gt: g}
+				break
+			}
 			outcome = "merge"
 			src := c10Sources[self]
 			floor := max(local.maxValueForSource(src), inc.maxValueForSource(src)) // resolveDocMergeHLV
-			v := floor + 1
+			v := c10Next(floor, self, st.spread, local, inc)
 			if v <= loc.gt.VV[self] {
 				probs = append(probs, c10Problem{"monotone-generation", "C10|histories|generated-version-not-above-own-earlier-version|event=merge|own-source=" + c10Loc(before, src),
 					fmt.Sprintf("floor from the vectors is %d, but replica %s already generated %d", floor, c10Names[self], loc.gt.VV[self])})
@@ -449,15 +519,36 @@ func c10Apply(ctx context.Context, st *c10State, ev c10Event) (*c10State, string
 		}
 		nr.hlv = back
 		probs = append(probs, c10CheckState(nr, self, ev, outcome, before, incoming)...)
+		// One disagreement is understood (conf/C10.py, finding "a newer version is dropped when the surviving vector
+		// lists its source in mv with an older value"): it is reported, then the ground truth follows the vector so
+		// that the histories below it are still explored instead of being cut off.
+		if len(probs) > 0 && (outcome == "accept-same-merge" || strings.HasPrefix(outcome, "lww-")) {
+			all := true
+			for _, p := range probs {
+				if p.oracle != "seen-versions" || !strings.Contains(p.sig, "|lowered|") || !strings.HasSuffix(p.sig, "|listed-after=mv") {
+					all = false
+				}
+			}
+			if all {
+				for s := 0; s < c10R; s++ {
+					if v, ok := nr.hlv.GetValue(c10Sources[s]); ok && v < nr.gt.VV[s] {
+						nr.gt.VV[s] = v
+					}
+				}
+				for i := range probs {
+					probs[i].msg += c10Realigned
+				}
+			}
+		}
 	}
-	ns := &c10State{rep: st.rep}
+	ns := &c10State{rep: st.rep, spread: st.spread}
 	ns.rep[self] = nr
 	return ns, outcome, probs
 }
 
 // c10Trace replays a history and renders every step (for the witness).
-func c10Trace(ctx context.Context, hist []c10Event) []string {
-	st := &c10State{}
+func c10Trace(ctx context.Context, hist []c10Event, spread bool) []string {
+	st := &c10State{spread: spread}
 	var out []string
 	for i, ev := range hist {
 		ns, outcome, probs := c10Apply(ctx, st, ev)
@@ -489,14 +580,39 @@ func c10HistStrings(hist []c10Event) []string {
 	return out
 }
 
+type c10Found struct {
+	hist  []c10Event
+	probs []c10Problem
+}
+
 type c10Acc struct {
+	found    []c10Found     // shortest disagreement per signature (first in exploration order among equals)
+	foundSig map[string]int // signature -> index into found
 	counts   map[string]int
 	states   map[uint64]struct{}
 	nodes    int
 	maxDepth int
 }
 
-func newC10Acc() *c10Acc { return &c10Acc{counts: map[string]int{}, states: map[uint64]struct{}{}} }
+func newC10Acc() *c10Acc {
+	return &c10Acc{counts: map[string]int{}, states: map[uint64]struct{}{}, foundSig: map[string]int{}}
+}
+
+// note keeps the first disagreement of every signature; flush reports them. Workers explore in parallel, so
+// reporting is deferred and done in task order: the witness of a signature does not depend on scheduling.
+func (a *c10Acc) note(hist []c10Event, probs []c10Problem) {
+	for _, p := range probs {
+		a.counts["disagreements"]++
+		if i, ok := a.foundSig[p.sig]; ok {
+			if len(hist) < len(a.found[i].hist) {
+				a.found[i] = c10Found{hist, []c10Problem{p}}
+			}
+			continue
+		}
+		a.foundSig[p.sig] = len(a.found)
+		a.found = append(a.found, c10Found{hist, []c10Problem{p}})
+	}
+}
 
 func c10StateKey(st *c10State) string {
 	var sb strings.Builder
@@ -515,13 +631,30 @@ type c10Explorer struct {
 	ctx      context.Context
 	run      *vlib.Run
 	maxLen   int
+	spread   bool
+	diag     bool // non-deciding: disagreements become notes and counters, never violations
+	noted    map[string]bool
 	keyDepth int // states of histories up to this length are fingerprinted for the distinct count
 }
 
 func (x *c10Explorer) report(hist []c10Event, probs []c10Problem) {
+	if x.diag {
+		for _, p := range probs {
+			if x.noted == nil {
+				x.noted = map[string]bool{}
+			}
+			if x.noted[p.sig] {
+				continue
+			}
+			x.noted[p.sig] = true
+			x.run.Distinct("lww_diagnostic_disagreement_classes", p.sig)
+			x.run.Note("diagnostic (non-deciding, last-write-wins extension): %s: %s — history: %s", p.sig, p.msg, strings.Join(c10HistStrings(hist), " "))
+		}
+		return
+	}
 	for _, p := range probs {
 		x.run.Violation(p.oracle, p.sig, p.msg+" — history: "+strings.Join(c10HistStrings(hist), " "), map[string]any{
-			"history": c10HistStrings(hist), "trace": c10Trace(x.ctx, hist), "sources": map[string]string{"A": c10Sources[0], "B": c10Sources[1], "C": c10Sources[2]},
+			"history": c10HistStrings(hist), "trace": c10Trace(x.ctx, hist, x.spread), "values": map[bool]string{false: "floor+1", true: "next value above the floor with value mod 4 = replica index + 1"}[x.spread], "sources": map[string]string{"A": c10Sources[0], "B": c10Sources[1], "C": c10Sources[2]},
 		})
 	}
 }
@@ -551,8 +684,15 @@ func (x *c10Explorer) step(acc *c10Acc, st *c10State, hist []c10Event, ev c10Eve
 	acc.counts["event_"+outcome]++
 	if len(probs) > 0 {
 		acc.counts["histories_with_disagreement"]++
-		x.report(append(append([]c10Event{}, hist...), ev), probs)
-		return nil, merges, true // ground truth and vector have diverged: do not explore below
+		acc.note(append(append([]c10Event{}, hist...), ev), probs)
+		cont := ns != nil
+		for _, p := range probs {
+			cont = cont && strings.HasSuffix(p.msg, c10Realigned)
+		}
+		if !cont {
+			return nil, merges, true // ground truth and vector have diverged: do not explore below
+		}
+		acc.counts["continued_after_realigning_ground_truth"]++
 	}
 	if outcome == "merge" || outcome == "accept-same-merge" {
 		merges++
@@ -593,14 +733,9 @@ func (x *c10Explorer) dfs(acc *c10Acc, st *c10State, hist []c10Event, merges int
 	}
 }
 
-func TestVerif_C10_Histories(t *testing.T) {
-	run := vlib.Start(t, "C10", "histories")
-	defer run.Finish()
-	ctx := base.TestCtx(t)
-	x := &c10Explorer{ctx: ctx, run: run, maxLen: run.N(6, 8), keyDepth: 6}
-	evs := c10AllEvents()
-
-	// prefixes of length <= 2 are expanded here, the subtrees below them in parallel
+// explore enumerates every history over evs up to x.maxLen: prefixes of length <= 2 here, the subtrees below
+// them in parallel. Disagreements are reported afterwards, shortest witness first.
+func (x *c10Explorer) explore(evs []c10Event) *c10Acc {
 	type task struct {
 		st     *c10State
 		hist   []c10Event
@@ -608,8 +743,9 @@ func TestVerif_C10_Histories(t *testing.T) {
 	}
 	var tasks []task
 	top := newC10Acc()
+	root := &c10State{spread: x.spread}
 	for _, e1 := range evs {
-		s1, m1, _ := x.step(top, &c10State{}, nil, e1, 0)
+		s1, m1, _ := x.step(top, root, nil, e1, 0)
 		if s1 == nil {
 			continue
 		}
@@ -637,7 +773,9 @@ func TestVerif_C10_Histories(t *testing.T) {
 	}
 	wg.Wait()
 	total := top
+	found := append([]c10Found{}, top.found...)
 	for _, a := range accs {
+		found = append(found, a.found...)
 		total.nodes += a.nodes
 		for k, v := range a.counts {
 			total.counts[k] += v
@@ -649,6 +787,21 @@ func TestVerif_C10_Histories(t *testing.T) {
 			total.maxDepth = a.maxDepth
 		}
 	}
+	// shortest witness first (stable: exploration order among equals)
+	sort.SliceStable(found, func(i, j int) bool { return len(found[i].hist) < len(found[j].hist) })
+	for _, f := range found {
+		x.report(f.hist, f.probs)
+	}
+	return total
+}
+
+func TestVerif_C10_Histories(t *testing.T) {
+	run := vlib.Start(t, "C10", "histories")
+	defer run.Finish()
+	ctx := base.TestCtx(t)
+	x := &c10Explorer{ctx: ctx, run: run, maxLen: run.N(7, 9), keyDepth: 6}
+	evs := c10AllEvents()
+	total := x.explore(evs)
 	run.Evals(total.nodes)
 	run.Count("histories_enumerated", total.nodes)
 	run.Max("history_length", total.maxDepth)
@@ -660,16 +813,37 @@ func TestVerif_C10_Histories(t *testing.T) {
 	}
 	run.Count("distinct_states_after_a_merge_len_le_6", len(total.states))
 
-	// seeded longer histories
+	// Extension, non-deciding (the property speaks of merges): a conflict may also be resolved by the default
+	// last-write-wins resolver, resolveLocalWinsHLV / resolveRemoteWinsHLV. Versions follow a causally consistent
+	// clock here (c10Next). Disagreements with the ground truth are recorded as notes and counters only.
+	xl := &c10Explorer{ctx: ctx, run: run, maxLen: run.N(6, 8), spread: true, diag: true, keyDepth: 0}
+	levs := append([]c10Event{}, evs...)
+	for _, e := range evs {
+		if e.Kind == 'p' {
+			e.LWW = true
+			levs = append(levs, e)
+		}
+	}
+	lt := xl.explore(levs)
+	run.Evals(lt.nodes)
+	run.Count("lww_histories_enumerated", lt.nodes)
+	run.Max("lww_history_length", lt.maxDepth)
+	for k, v := range lt.counts {
+		run.Count("lww_"+k, v)
+	}
+
+	// seeded longer histories (every second one in the last-write-wins extension)
 	nRandom := run.N(4000, 60000)
-	racc := newC10Acc()
+	racc := [2]*c10Acc{newC10Acc(), newC10Acc()}
+	rx := [2]*c10Explorer{x, xl}
 	for i := 0; i < nRandom; i++ {
 		if only, ok := run.OnlyCase(); ok && only != i {
 			continue
 		}
 		r := run.CaseRand(i)
+		mode := i % 2
 		n := r.Range(9, 40)
-		st := &c10State{}
+		st := &c10State{spread: mode == 1}
 		var hist []c10Event
 		merges := 0
 		for len(hist) < n {
@@ -678,9 +852,9 @@ func TestVerif_C10_Histories(t *testing.T) {
 				ev = c10Event{Kind: 'e', R: r.Intn(c10R)}
 			} else {
 				a := r.Intn(c10R)
-				ev = c10Event{Kind: 'p', R: a, From: (a + 1 + r.Intn(c10R-1)) % c10R}
+				ev = c10Event{Kind: 'p', R: a, From: (a + 1 + r.Intn(c10R-1)) % c10R, LWW: mode == 1 && r.Bool()}
 			}
-			s2, m2, applicable := x.step(racc, st, hist, ev, merges)
+			s2, m2, applicable := rx[mode].step(racc[mode], st, hist, ev, merges)
 			if !applicable {
 				continue
 			}
@@ -692,12 +866,17 @@ func TestVerif_C10_Histories(t *testing.T) {
 		}
 		run.Max("random_history_length", len(hist))
 		if i < 2 {
-			run.Sample(map[string]any{"kind": "random history", "trace": c10Trace(ctx, hist)})
+			run.Sample(map[string]any{"kind": "random history", "trace": c10Trace(ctx, hist, mode == 1)})
 		}
 	}
-	run.Evals(racc.nodes)
-	run.Count("random_histories", nRandom)
-	for k, v := range racc.counts {
-		run.Count("random_"+k, v)
+	for mode, pre := range []string{"random_", "random_lww_"} {
+		for _, f := range racc[mode].found {
+			rx[mode].report(f.hist, f.probs)
+		}
+		run.Evals(racc[mode].nodes)
+		for k, v := range racc[mode].counts {
+			run.Count(pre+k, v)
+		}
 	}
+	run.Count("random_histories", nRandom)
 }
